@@ -183,6 +183,7 @@ def run(ctx):
     fault_pass(ctx)
     thread_pass(ctx)
     pressure_pass(ctx)
+    called_mv_pass(ctx)
     out = ctx.drive(lines)
     if out is not None:
         nb = 0
@@ -192,9 +193,8 @@ def run(ctx):
                 if nb <= 5:
                     ctx.mismatch('function-name', desc, got, exp)
         ctx.count('names-compared', len(lines))
-        if nb:
-            # names differ from the model whose injectivity is proved: search for a history that exploits a collision
-            collision_search(ctx)
+    # whether or not the names agree with the model: histories that would exploit a name collision
+    collision_search(ctx)
     ctx.assumptions = ['single dict operations are atomic under the GIL; functools.cached_property races are not modelled',
                        'the thread run supports, but does not replace, the interleaving theorem']
 
@@ -339,22 +339,59 @@ def pressure_pass(ctx):
         ctx.count('pressure-patterns', count)
 
 
+def called_mv_pass(ctx):
+    """symbolic multivectors evaluated by calling them, several with the same key tuple but different expressions, in an
+    interleaved order, on algebras with and without a wrapper: every call returns the value of its own expressions"""
+    import sympy
+    rng = ctx.rng
+    for wrapper in (None, ident):
+        alg = make_algebra([1, 1], **({'wrapper': wrapper} if wrapper else {}))
+        u = alg.vector(name='u'); v = alg.vector(name='v')
+        mvs = {'u*v': u * v, 'v*u': v * u, '3*(u|v)+(u^v)': 3 * (u | v) + (u ^ v), 'u+v': u + v, 'u-2v': u - 2 * v}
+        order = list(mvs) * 3
+        rng.shuffle(order)
+        for step, nm in enumerate(order):
+            m = mvs[nm]
+            fs = sorted(m.free_symbols, key=lambda sy: sy.name)
+            vals = {sy: Fraction(rng.randint(1, 9)) for sy in fs}
+            exp = {k: sympy.nsimplify(sympy.sympify(c).subs({sy: sympy.Rational(val.numerator, val.denominator) for sy, val in vals.items()}))
+                   for k, c in zip(m.keys(), m.values())}
+            exp = {k: float(c) for k, c in exp.items() if c != 0}
+            case = {'wrapper': bool(wrapper), 'multivector': nm, 'step': step, 'earlier': order[max(0, step - 4):step]}
+            ctx.case(case, tag='called-mv')
+            try:
+                r = m(*[float(vals[sy]) for sy in fs])
+                got = {k: float(c) for k, c in zip(r.keys(), r.values()) if float(c) != 0}
+            except Exception as e:
+                ctx.violation('called-mv-raises', case, exp, repr(e)[:200], key='history:called-mv:raises')
+                continue
+            if set(got) != set(exp) or any(abs(got[k] - exp[k]) > 1e-9 for k in exp):
+                ctx.violation('history-dependent', case, exp, got, key='history:called-mv')
+
+
 def collision_search(ctx):
-    """two key orders of one key set through every by-name route"""
-    for sig in ([1, 1, 1], [0, 1, 1]):
-        for wrapper in (ident, None):
-            alg = make_algebra(sig, **({'wrapper': wrapper} if wrapper else {}))
-            regs = make_regs(alg)
-            a = {'kind': 'reg', 'f': 0, 'kx': [1, 2, 4], 'ky': [1, 6], 'vx': [Fraction(2), Fraction(3), Fraction(5)], 'vy': [Fraction(7), Fraction(11)]}
-            b = dict(a); b['kx'] = [4, 1, 2]; b['vx'] = [Fraction(5), Fraction(2), Fraction(3)]
-            for seq in ([a, b, a], [b, a, b]):
-                for c in seq:
-                    for kind in ('reg', 'bin'):
-                        call = dict(c); call['kind'] = kind; call['op'] = 'gp'
-                        got = do_call(alg, regs, call)
-                        fresh = make_algebra(sig, **({'wrapper': wrapper} if wrapper else {}))
-                        exp = do_call(fresh, make_regs(fresh), call)
-                        if got != exp:
-                            ctx.violation('history-dependent', {'sig': sig, 'wrapper': bool(wrapper), 'call': jsonable(call)}, str(exp), str(got),
-                                          key='history:name-collision')
-                            return
+    """key orders of one key set through every by-name route: three orders in d = 3, and in d = 5 / 6 orders of key sets with
+    one- and two-digit keys whose digit strings coincide when concatenated ((1,17,2) / (17,1,2), ...)"""
+    cases3 = [([1, 2, 4], [4, 1, 2]), ([1, 2, 4], [2, 4, 1])]
+    cases5 = [([1, 17, 2], [17, 1, 2]), ([1, 2, 16], [16, 1, 2]), ([1, 11, 2], [11, 1, 2]), ([3, 31, 1], [31, 3, 1])]
+    for sig, cases in (([1, 1, 1], cases3), ([0, 1, 1], cases3), ([1, 1, 1, 1, 1], cases5), ([0, 1, 1, 1, 1, -1], cases5)):
+        for ka, kb in cases:
+            for wrapper in (ident, None):
+                alg = make_algebra(sig, **({'wrapper': wrapper} if wrapper else {}))
+                regs = make_regs(alg)
+                va = [Fraction(2), Fraction(3), Fraction(5)]
+                a = {'kind': 'reg', 'f': 0, 'kx': list(ka), 'ky': [1, 6], 'vx': va, 'vy': [Fraction(7), Fraction(11)]}
+                b = dict(a); b['kx'] = list(kb); b['vx'] = [va[ka.index(k)] for k in kb]
+                bad = False
+                for seq in ([a, b, a], [b, a, b]):
+                    for c in seq:
+                        for kind in ('reg', 'bin'):
+                            call = dict(c); call['kind'] = kind; call['op'] = 'gp'
+                            ctx.case(('collision', tuple(sig), bool(wrapper), kind, tuple(call['kx'])), tag='name-collision-search')
+                            got = do_call(alg, regs, call)
+                            fresh = make_algebra(sig, **({'wrapper': wrapper} if wrapper else {}))
+                            exp = do_call(fresh, make_regs(fresh), call)
+                            if got != exp and not bad:
+                                bad = True
+                                ctx.violation('history-dependent', {'sig': sig, 'wrapper': bool(wrapper), 'call': jsonable(call)}, str(exp), str(got),
+                                              key='history:name-collision')
